@@ -82,6 +82,10 @@ impl FromStr for GameState {
                 let idx = (row_idx * BOARD_WIDTH + col_idx) as u8;
                 let square = Square::from_index(idx);
                 if let Some((piece, is_p1)) = convert_char_to_piece(charr) {
+                    if row_idx >= BOARD_HEIGHT || col_idx >= BOARD_WIDTH {
+                        return Err(anyhow::anyhow!("Piece placed outside of the board"));
+                    }
+
                     let square_bit = square.as_bit_board();
 
                     match piece {
